@@ -257,17 +257,20 @@ def r6_fragments(ctx):
     cls = p.closures_of(f.key)
     chunk = None
     offs = None
-    for cf in cls:
+    for cf in [f] + list(cls):
         for bi, t in cf.calls():
             if (callee_of(t) or {}).get("name") == "chunks_mut" and not cf.is_cleanup(bi):
                 chunk = (cf, t)
+    for cf in cls:
         for b in cf.blocks:
             for s in b["s"]:
                 if s["k"] == "assign" and s["rv"][0] == "bin" and s["rv"][1].startswith("Mul") and not b.get("cleanup"):
                     offs = (cf, s)
     if not chunk or not offs:
         raise AnchorLost("build_fragments: chunks_mut / offset computation not found")
-    co = upvar_origins(p, chunk[0], chunk[0].slice_of_operand(chunk[1]["a"][1], at=(chunk[1]["_bb"], chunk[0].INF)))
+    csl = chunk[0].slice_of_operand(chunk[1]["a"][1], at=(chunk[1]["_bb"], chunk[0].INF))
+    # the split may sit in a closure (captured fragment_length) or in the function body itself (a plain for loop)
+    co = [(f, {2} if 2 in csl["args"] else set())] if chunk[0].key == f.key else upvar_origins(p, chunk[0], csl)
     oo = []
     for o in (offs[1]["rv"][2], offs[1]["rv"][3]):
         oo += upvar_origins(p, offs[0], offs[0].slice_of_operand(o, at=offs[1]["_pos"]))
